@@ -274,7 +274,7 @@ def wire_mapping(chk, ex):
 
 
 def run(chk):
-    ex = make_sm_executor(chk, dict(unroll=8, env_assume=None, shape=lambda o, t: 2), cuts=())
+    ex = make_sm_executor(chk, dict(unroll=8 if chk.tier == 'quick' else 14, env_assume=None, shape=lambda o, t: 2), cuts=())
     cohort_merge(chk, ex)
     shapes = [(1, 1), (2, 2)] if chk.tier == 'quick' else [(1, 1), (2, 2), (3, 3), (1, 3), (3, 1)]
     for na, nr in shapes:
